@@ -3,6 +3,11 @@ package main
 // Helpers of the C19 rule set: the roles the rules are anchored on (a fetch of a descriptor's content, the push of
 // the envelope, the current element of the listing loop, a gate decided inside a helper) are recognised here by
 // what the code does with library calls, not by where or under which local name it does it.
+//
+// Fourth pass: a gate is "a condition that implies the fact" (c19Implies), whatever carries the condition — an If edge,
+// the value a module predicate returns (`return m == A || m == B`), membership in a read-only package-level table
+// with constant keys (c19Table) —, and a call through such a table is the finite case distinction over its keys
+// (c19ListResolver.leaves follows the decoded list into each function of the table under "key == that entry's key").
 
 import (
 	"fmt"
@@ -353,10 +358,9 @@ func c19CondCall(cond ssa.Value, truth bool) (*ssa.Call, Mode, bool) {
 
 // c19GateCut: the If edges of fn that imply one of the given facts (facts are spelled in the frame of the function
 // the question is asked for; tr translates a label of fn's frame into that frame). An edge implies one of the facts
-// if its own label is one of them, or if it is the passing edge of a call of a module function (`h(args) == nil`,
-// `if h(args)`) that cannot succeed once *its* edges implying the facts are cut: h returns success only through
-// one of them, so the caller learns the disjunction from h's success. This is the disjunctive counterpart of the
-// engine's label composition (which hands up only facts that hold on every exit of h).
+// if its condition, evaluating the way the edge requires, implies one of them (c19Implies: its own label, membership
+// in a read-only table all of whose keys are among the facts, or the success of a module function that succeeds
+// only through such a fact).
 func c19GateCut(w *World, fn *ssa.Function, facts map[string]bool, tr func(string) string, depth int) map[edgeKey]bool {
 	cut := map[edgeKey]bool{}
 	for _, b := range fn.Blocks {
@@ -365,34 +369,263 @@ func c19GateCut(w *World, fn *ssa.Function, facts map[string]bool, tr func(strin
 			continue
 		}
 		for j := 0; j < 2; j++ {
-			l := condLabel(iff.Cond, j == 0)
-			if facts[tr(l)] {
-				cut[edgeKey{b.Index, j}] = true
-				continue
-			}
-			if tw, ok := labelTwin(l); ok && facts[tr(tw)] {
-				cut[edgeKey{b.Index, j}] = true
-				continue
-			}
-			if depth >= 3 {
-				continue
-			}
-			call, mode, ok := c19CondCall(iff.Cond, j == 0)
-			if !ok {
-				continue
-			}
-			h := staticCallee(call)
-			if h == nil || h == fn || h.Blocks == nil || !w.IsProductFn(h) || len(call.Call.Args) != len(h.Params) {
-				continue
-			}
-			tr2 := c19Into(h, call, tr)
-			hc := c19GateCut(w, h, facts, tr2, depth+1)
-			if len(hc) > 0 && w.Info(h).successWitness(mode, entryState(), hc) == nil {
+			if c19Implies(w, fn, iff.Cond, j == 0, facts, tr, depth) {
 				cut[edgeKey{b.Index, j}] = true
 			}
 		}
 	}
 	return cut
+}
+
+// c19Implies: the boolean value v of fn, evaluating to `truth`, implies one of the facts (spelled in the frame tr
+// translates fn's labels into). Beyond the label of v itself this is
+//
+//   - membership in a read-only table (c19CondPresent): `_, ok := table[x]`, `table[x] != nil`, `set[x]` say that x is
+//     one of the table's constant keys k1..kn; if every `x == ki` is one of the facts, the disjunction is implied;
+//   - the success of a module function (`h(args) == nil`, `h(args)` answering `truth`) that cannot succeed once its
+//     own edges implying the facts are cut, except through exits that hand back a value which itself implies the
+//     facts (`return x == A || x == B`: the first comparison is a branch of h, the second is the value returned on
+//     the remaining exit; the caller's branch on h's answer is a branch on that comparison). h returns success only
+//     through one of the facts, so the caller learns the disjunction from h's success. This is the disjunctive
+//     counterpart of the engine's label composition (which hands up only facts that hold on every exit of h).
+func c19Implies(w *World, fn *ssa.Function, v ssa.Value, truth bool, facts map[string]bool, tr func(string) string, depth int) bool {
+	l := condLabel(v, truth)
+	if facts[tr(l)] {
+		return true
+	}
+	if tw, ok := labelTwin(l); ok && facts[tr(tw)] {
+		return true
+	}
+	if tb, lk := c19CondPresent(w, v, truth); tb != nil {
+		all := len(tb.Keys) > 0
+		for _, k := range tb.Keys {
+			if !facts[tr("EQ("+desc(lk.Index)+","+desc(k)+")")] {
+				all = false
+			}
+		}
+		return all
+	}
+	if depth >= 3 {
+		return false
+	}
+	call, mode, ok := c19CondCall(v, truth)
+	if !ok {
+		return false
+	}
+	h := staticCallee(call)
+	if h == nil || h == fn || h.Blocks == nil || !w.IsProductFn(h) || len(call.Call.Args) != len(h.Params) {
+		return false
+	}
+	tr2 := c19Into(h, call, tr)
+	hc := c19GateCut(w, h, facts, tr2, depth+1)
+	hi := w.Info(h)
+	if len(hc) > 0 && hi.successWitness(mode, entryState(), hc) == nil {
+		return true
+	}
+	if mode.Kind != mBool {
+		return false
+	}
+	// the exits that can still answer `Want`: each must return a value that implies the facts
+	rest := hi.summarizeFrom(mode, entryState(), hc)
+	if rest == nil || !rest.Complete || len(rest.Exits) == 0 {
+		return false
+	}
+	for _, e := range rest.Exits {
+		rv := c19ExitResult(e, 0)
+		if rv == nil {
+			return false
+		}
+		if _, isConst := rv.(*ssa.Const); isConst {
+			return false // an unconditional answer
+		}
+		if !c19Implies(w, h, rv, mode.Want, facts, tr2, depth+1) {
+			return false
+		}
+	}
+	return true
+}
+
+// ---------- read-only tables ----------------------------------------------------------
+
+// c19Table: a package-level `map[string]T` that is a constant of the program: assigned once, in the package
+// initialiser, a map made there and filled there under constant keys (each once); everywhere else in the module it is
+// only loaded, and the loaded map only indexed. A lookup `table[x]` then finds an entry iff x equals one of the keys,
+// and delivers the value the initialiser stored under that key: a dispatch through the table is a finite case
+// distinction over x, written as data.
+type c19Table struct {
+	G    *ssa.Global
+	Keys []*ssa.Const
+	Vals []ssa.Value
+}
+
+var c19TableMemo = map[*ssa.Global]*c19Table{}
+
+func c19ReadOnlyTable(w *World, g *ssa.Global) *c19Table {
+	if t, done := c19TableMemo[g]; done {
+		return t
+	}
+	c19TableMemo[g] = nil
+	pt, ok := g.Type().Underlying().(*types.Pointer)
+	if !ok {
+		return nil
+	}
+	mt, ok := pt.Elem().Underlying().(*types.Map)
+	if !ok {
+		return nil
+	}
+	if b, ok := mt.Key().Underlying().(*types.Basic); !ok || b.Kind() != types.String {
+		return nil
+	}
+	var mk *ssa.MakeMap
+	nStore := 0
+	for fn := range w.allFuncs {
+		p := fnPkg(fn)
+		if fn.Blocks == nil || p == nil || !strings.HasPrefix(p.Path(), modPath) {
+			continue
+		}
+		isInit := fn.Parent() == nil && fn.Pkg != nil && fn.Pkg == g.Pkg && fn.Pkg.Func("init") == fn
+		for _, b := range fn.Blocks {
+			for _, in := range b.Instrs {
+				uses := false
+				for _, op := range in.Operands(nil) {
+					if op != nil && *op == ssa.Value(g) {
+						uses = true
+					}
+				}
+				if !uses {
+					continue
+				}
+				switch x := in.(type) {
+				case *ssa.DebugRef:
+				case *ssa.Store:
+					m, isMk := x.Val.(*ssa.MakeMap)
+					if !isInit || x.Addr != ssa.Value(g) || !isMk {
+						return nil
+					}
+					mk = m
+					nStore++
+				case *ssa.UnOp:
+					if x.Op != token.MUL || x.Referrers() == nil {
+						return nil
+					}
+					for _, r := range *x.Referrers() {
+						switch y := r.(type) {
+						case *ssa.DebugRef:
+						case *ssa.Lookup:
+							if y.X != ssa.Value(x) || y.Index == ssa.Value(x) {
+								return nil
+							}
+						default:
+							return nil // ranged over, written, passed on, …
+						}
+					}
+				default:
+					return nil
+				}
+			}
+		}
+	}
+	if nStore != 1 || mk == nil || mk.Referrers() == nil {
+		return nil
+	}
+	t := &c19Table{G: g}
+	seen := map[string]bool{}
+	for _, r := range *mk.Referrers() {
+		switch x := r.(type) {
+		case *ssa.DebugRef:
+		case *ssa.Store:
+			if x.Addr != ssa.Value(g) || x.Val != ssa.Value(mk) {
+				return nil
+			}
+		case *ssa.MapUpdate:
+			k, isK := x.Key.(*ssa.Const)
+			if x.Map != ssa.Value(mk) || x.Value == ssa.Value(mk) || !isK || k.Value == nil || seen[desc(k)] {
+				return nil
+			}
+			seen[desc(k)] = true
+			t.Keys = append(t.Keys, k)
+			t.Vals = append(t.Vals, x.Value)
+		default:
+			return nil
+		}
+	}
+	if len(t.Keys) == 0 {
+		return nil
+	}
+	c19TableMemo[g] = t
+	return t
+}
+
+// c19TableLookup: v is what a lookup in a read-only table delivers: the element found (`table[x]`, or the first
+// result of `e, ok := table[x]`) — elem — or the presence flag `ok`.
+func c19TableLookup(w *World, v ssa.Value) (tb *c19Table, lk *ssa.Lookup, elem bool) {
+	v = loadOrigin(v)
+	switch x := v.(type) {
+	case *ssa.Lookup:
+		if x.CommaOk {
+			return nil, nil, false
+		}
+		lk, elem = x, true
+	case *ssa.Extract:
+		l, ok := x.Tuple.(*ssa.Lookup)
+		if !ok || !l.CommaOk {
+			return nil, nil, false
+		}
+		lk, elem = l, x.Index == 0
+	default:
+		return nil, nil, false
+	}
+	ld, ok := lk.X.(*ssa.UnOp)
+	if !ok || ld.Op != token.MUL {
+		return nil, nil, false
+	}
+	g, ok := ld.X.(*ssa.Global)
+	if !ok {
+		return nil, nil, false
+	}
+	if tb = c19ReadOnlyTable(w, g); tb == nil {
+		return nil, nil, false
+	}
+	return tb, lk, elem
+}
+
+// c19CondPresent: cond, evaluating to `truth`, says that the key of a lookup in a read-only table is present: the
+// presence flag is true; or the element found is not nil / is `true` (a missing key delivers the zero value — nil,
+// false —, so an element that is not the zero value was found under its key).
+func c19CondPresent(w *World, cond ssa.Value, truth bool) (*c19Table, *ssa.Lookup) {
+	for {
+		u, ok := cond.(*ssa.UnOp)
+		if !ok || u.Op != token.NOT {
+			break
+		}
+		cond, truth = u.X, !truth
+	}
+	if bo, ok := cond.(*ssa.BinOp); ok {
+		var o ssa.Value
+		switch {
+		case isNilConst(bo.Y):
+			o = bo.X
+		case isNilConst(bo.X):
+			o = bo.Y
+		default:
+			return nil, nil
+		}
+		if !((bo.Op == token.NEQ && truth) || (bo.Op == token.EQL && !truth)) {
+			return nil, nil
+		}
+		if tb, lk, elem := c19TableLookup(w, o); tb != nil && elem {
+			return tb, lk
+		}
+		return nil, nil
+	}
+	if !truth || !isBoolType(cond.Type()) {
+		return nil, nil
+	}
+	if tb, lk, _ := c19TableLookup(w, cond); tb != nil {
+		// the presence flag, or a boolean element: both are false for a missing key
+		return tb, lk
+	}
+	return nil, nil
 }
 
 // c19Into: translation of labels of callee h (called at `call`) into the frame tr translates the caller's labels into:
@@ -514,38 +747,73 @@ func (r *c19ListResolver) leaves(fn *ssa.Function, v ssa.Value, tr func(string) 
 		return out
 	case *ssa.Extract:
 		hc, ok := x.Tuple.(*ssa.Call)
-		h := (*ssa.Function)(nil)
-		if ok {
-			h = staticCallee(hc)
-		}
-		if h == nil || h == fn || h.Blocks == nil || !r.w.IsProductFn(h) || isErrorType(x.Type()) || len(hc.Call.Args) != len(h.Params) {
+		if !ok || isErrorType(x.Type()) || hc.Call.IsInvoke() {
 			break
 		}
-		s := r.w.Summarize(h, Mode{Kind: mErr})
-		if s == nil || !s.Complete || len(s.Exits) == 0 {
+		// the function(s) the call can run: its static callee, or — for a call of what a lookup in a read-only table
+		// delivered (c19Table) — each function of the table, under the fact that the key looked up is that
+		// function's key: `table[x](…)` runs the entry stored under k only when x == k, the table never changes, so
+		// the dispatch is the case distinction `switch x { case k1: f1(…) … }` written as data.
+		type target struct {
+			h    *ssa.Function
+			fact string // in fn's frame; "" for a static call
+		}
+		var targets []target
+		if h := staticCallee(hc); h != nil {
+			targets = append(targets, target{h, ""})
+		} else if tb, lk, elem := c19TableLookup(r.w, hc.Call.Value); tb != nil && elem {
+			for i, k := range tb.Keys {
+				h, _ := tb.Vals[i].(*ssa.Function)
+				if h == nil || len(h.FreeVars) > 0 {
+					targets = nil
+					break
+				}
+				targets = append(targets, target{h, "EQ(" + desc(lk.Index) + "," + desc(k) + ")"})
+			}
+		}
+		if len(targets) == 0 {
+			break
+		}
+		var out []c19Decode
+		understood := true
+		for _, t := range targets {
+			h := t.h
+			if h == fn || h.Blocks == nil || !r.w.IsProductFn(h) || len(hc.Call.Args) != len(h.Params) {
+				understood = false
+				break
+			}
+			s := r.w.Summarize(h, Mode{Kind: mErr})
+			if s == nil || !s.Complete || len(s.Exits) == 0 {
+				understood = false
+				break
+			}
+			out2 := map[string]string{}
+			for l, st := range outer {
+				out2[l] = st
+			}
+			for l, st := range r.w.Info(fn).GuardsOf(hc) {
+				out2[tr(l)] = st
+			}
+			if t.fact != "" {
+				out2[tr(t.fact)] = "table dispatch at " + r.w.InstrPos(hc)
+			}
+			tr2 := c19Into(h, hc, tr)
+			for _, e := range s.Exits {
+				if x.Index >= len(e.Ret.Results) {
+					r.why = "helper result not understood"
+					return nil
+				}
+				rv := spilledRet(e.Ret.Results[x.Index])
+				if ph, isPhi := rv.(*ssa.Phi); isPhi && ph.Block() == e.Ret.Block() && e.Pred >= 0 && e.Pred < len(ph.Edges) {
+					rv = ph.Edges[e.Pred]
+				}
+				out = append(out, r.leaves(h, rv, tr2, out2, depth+1)...)
+			}
+		}
+		if !understood {
 			break
 		}
 		r.gates[fn] = append(r.gates[fn], c19ErrNil(hc))
-		out2 := map[string]string{}
-		for l, st := range outer {
-			out2[l] = st
-		}
-		for l, st := range r.w.Info(fn).GuardsOf(hc) {
-			out2[tr(l)] = st
-		}
-		tr2 := c19Into(h, hc, tr)
-		var out []c19Decode
-		for _, e := range s.Exits {
-			if x.Index >= len(e.Ret.Results) {
-				r.why = "helper result not understood"
-				return nil
-			}
-			rv := spilledRet(e.Ret.Results[x.Index])
-			if ph, isPhi := rv.(*ssa.Phi); isPhi && ph.Block() == e.Ret.Block() && e.Pred >= 0 && e.Pred < len(ph.Edges) {
-				rv = ph.Edges[e.Pred]
-			}
-			out = append(out, r.leaves(h, rv, tr2, out2, depth+1)...)
-		}
 		return out
 	case *ssa.UnOp:
 		fa, ok := x.X.(*ssa.FieldAddr)
